@@ -103,11 +103,11 @@ type c15Obs struct {
 
 type c15Replay struct {
 	Config mdConfig `json:"config"`
-	Prior  []string `json:"prior,omitempty"` // documents converted before on the same instance
-	Doc    string   `json:"doc"`
+	Prior  []rawDoc `json:"prior,omitempty"` // documents converted before on the same instance
+	Doc    rawDoc   `json:"doc"`
 }
 
-func c15Observe(cfg mdConfig, prior []string, doc string) (c15Obs, error) {
+func c15Observe(cfg mdConfig, prior []rawDoc, doc rawDoc) (c15Obs, error) {
 	fresh := cfg.build()
 	o1, err := convertWith(fresh, []byte(doc))
 	if err != nil {
@@ -206,10 +206,10 @@ func runC15(c *Ctx) {
 	}
 	// one long-used instance per configuration: the history is every earlier document
 	used := map[string]goldmark.Markdown{}
-	hist := map[string][]string{}
+	hist := map[string][]rawDoc{}
 	var recs []interface{}
 	var keep []item
-	var priors [][]string
+	var priors [][]rawDoc
 	warned := 0
 	for _, it := range items {
 		k := it.cfg.String()
@@ -238,8 +238,8 @@ func runC15(c *Ctx) {
 		if len(h) > 3 {
 			h = h[len(h)-3:]
 		}
-		priors = append(priors, append([]string{}, h...))
-		hist[k] = append(h, it.doc)
+		priors = append(priors, append([]rawDoc{}, h...))
+		hist[k] = append(h, rawDoc(it.doc))
 		if len(obs.IDs) >= 2 {
 			ev.Distinct(k + "|" + it.doc)
 		}
@@ -254,7 +254,7 @@ func runC15(c *Ctx) {
 			continue // each reproduction is a TLC run; a few witnesses per class are enough
 		}
 		it := keep[b.L-1]
-		rp := c15Replay{Config: it.cfg, Prior: priors[b.L-1], Doc: it.doc}
+		rp := c15Replay{Config: it.cfg, Prior: priors[b.L-1], Doc: rawDoc(it.doc)}
 		if b.Why != "history-dependent" {
 			rp.Prior = nil
 		}
